@@ -641,13 +641,23 @@ def replay_cases(worker, cases, seed=0, jobs=16, chunk=1500, env=None,
     fails = []
     nfail = 0
     sys.path.insert(0, os.path.dirname(os.path.abspath(__file__)))
-    with ProcessPoolExecutor(jobs) as ex:
+    nhang = 0
+    ex = ProcessPoolExecutor(jobs)
+    try:
         for stats, fl in ex.map(_chunk_task, [(worker, c, seed, env, translate, judge_fn, record) for c in chunks]):
             for k in total:
                 total[k] += stats.get(k, 0)
             nfail += len(fl)
             if len(fails) < max_fail_keep:
                 fails.extend(fl[:max_fail_keep - len(fails)])
+            nhang += sum(1 for f in fl if isinstance(f[4], str) and f[4].startswith("CRASH: hang"))
+            if nhang >= 12:
+                # a change under which case after case never returns: what has been seen is reported, the rest of the phase
+                # is abandoned (each hanging chunk costs minutes) -- the check must end
+                total["abandoned_after_hangs"] = nhang
+                break
+    finally:
+        ex.shutdown(wait=True, cancel_futures=True)
     total["failed"] = nfail
     return total, fails
 
